@@ -201,8 +201,8 @@ SockMon(g0, e) ==
   LET g == [g0 EXCEPT !.pos = @ + 1]
       stopped == g.st.stopped IN
   CASE e.e = "init" -> [g EXCEPT !.ps = e.ps]
-    [] e.e = "served" ->
-         MOut([g EXCEPT !.st = DoServe(g.st, e.tr)],
+    [] e.e = "served" ->         \* (also a second time, after a completed stop: the server object is started again)
+         MOut([g EXCEPT !.st = DoServe([g.st EXCEPT !.stopped = FALSE], e.tr)],
               Chk("C19.serve", -1, e.ok /\ e.prompt /\ e.serving /\ (e.tr = "unix" => e.sock)), Hit("C19.serve", TRUE))
     [] e.e = "connected" ->
          MOut([g EXCEPT !.st = DoHandshake(DoConnect(g.st, e.s), e.s)],
